@@ -7,6 +7,7 @@ from pycoin.contrib.msg_signing import MessageSigner
 from pycoin.encoding.exceptions import EncodingError
 from pycoin.encoding.sec import public_pair_to_sec
 import c17_armour as ARM
+import c17_unicode as UNI
 
 PROP = "C17"
 EXTRA_PROPS = ["C17compose"]   # composition theorems (see DESIGN.md section 0)
@@ -318,6 +319,13 @@ def model_cases(rng, tier):
         for d, z, c, t in keep:
             for zz in (z, z + 1, z + n):
                 yield Case("recover %s %s %s" % (cva, T(t), arg(zz)), (lambda ms=ms, t=t, zz=zz: call(_impl_recover, ms, t, zz)))
+        # presentations of the hash: negative, huge, another representative of the same residue
+        for d, z, c, t in keep[:6]:
+            tok, key = _key_tokens("P", pt_canon(d * g))
+            for zz in (z - 7 * n, -z, z + n * (1 << 300), -(1 << 520), 0):
+                yield Case("recover %s %s %s" % (cva, T(t), arg(zz)), (lambda ms=ms, t=t, zz=zz: call(_impl_recover, ms, t, zz)))
+                yield Case("verify %s %s %s %s N %s" % (cva, tok, T(t), T("Toycoin"), arg(zz)),
+                           (lambda ms=ms, key=key, t=t, zz=zz: call(ms.verify_message, key, t, msg_hash=zz)))
         # recovery: crafted / malformed payloads (exhaustive on the smallest curves)
         crafted = []
         if n < 14:
@@ -385,6 +393,9 @@ def model_cases(rng, tier):
                    (lambda ms=ms: call(lambda: ms.sign_message(PrivKey(0, True), "m").encode("utf8"))))
     # I. armoured form
     for c in ARM.model_cases(rng, tier):
+        yield c
+    # J. presentations of the message: exact UTF-8, no normalisation (full Unicode range, non-normalised strings, twins)
+    for c in UNI.model_cases(rng, tier, networks):
         yield c
 
 
@@ -805,6 +816,9 @@ def prop_cases(rng, tier):
     for sym in [nw.symbol for nw in usable_networks()]:
         yield PropCase("address_kind", {"net": sym, "d": "12345"}, (lambda sym=sym: chk_address_kind(sym, 12345)))
     # 5. armoured form
+    # 6. presentations (non-normalised Unicode and twins, msg_hash forms) and histories (digest after other networks)
+    for pc in UNI.prop_cases(rng, tier, usable_networks):
+        yield pc
     for pc in ARM.prop_cases(rng, tier, usable_networks, msgs):
         yield pc
 
@@ -836,6 +850,9 @@ def replay_input(check, inp):
     if check == "toy":
         return chk_toy(inp["curve"], int(inp["d"]), int(inp["z"]), inp["comp"])
     r = ARM.replay_input(check, inp, net)
+    if r is not NotImplemented:
+        return r
+    r = UNI.replay_input(check, inp, net)
     if r is not NotImplemented:
         return r
     return {"kind": "unknown-check"}
@@ -882,6 +899,7 @@ def search(rng, tier, disagreements, known_ids):
                                               (lambda sym=sym, comp=comp: chk_sign_verify(sym, 4242, comp, "search"))))
         except Exception:
             pass
+    cands += UNI.search_cands(disagreements, net, usable_networks)
     cands += ARM.search_cands(disagreements, net)
     cands += list(prop_cases(rng, tier))
     for pc in cands:
